@@ -10,7 +10,10 @@
 (*   line (canon = byte-identical to the canonical header text; sh = -1 /  *)
 (*   +1: a few bytes were cut from / put in front of the line, so that     *)
 (*   everything behind it in the file is displaced by less than a unit     *)
-(*   against the recorded byte positions), or                              *)
+(*   against the recorded byte positions; mv = 1: the line sits a few      *)
+(*   bytes BEFORE its recorded position because that many payload bytes    *)
+(*   were taken from the FAB in front of it and put into its own payload:  *)
+(*   nothing behind this FAB is displaced and the file length is kept), or *)
 (*            [k |-> "D"]                  -- one unit of payload bytes.   *)
 (* A FAB of a box with `c` cells and `n` components is H followed by c*n D.*)
 (* Byte offsets are 0-based unit positions.                                *)
@@ -40,7 +43,7 @@ ClassPattern == <<1, 2, 1, 2>>
 CellsOfIdx(i) == IF i = 91 THEN 2 ELSE IF i = 92 THEN 3 ELSE ClassPattern[i] + 1
 ForeignIdx == {91, 92}
 
-H(idx, nc) == [k |-> "H", idx |-> idx, nc |-> nc, canon |-> TRUE, sh |-> 0]
+H(idx, nc) == [k |-> "H", idx |-> idx, nc |-> nc, canon |-> TRUE, sh |-> 0, mv |-> 0]
 D == [k |-> "D"]
 RECURSIVE Rep(_, _)
 Rep(x, n) == IF n = 0 THEN <<>> ELSE <<x>> \o Rep(x, n - 1)
@@ -84,7 +87,7 @@ RefFiles(L) == {L.fodlines[b].file : b \in DOMAIN L.fodlines}
 BoxesIn(L, f) == {b \in DOMAIN L.fodlines : L.fodlines[b].file = f}
 \* what counts for the layout: index range, component count and LENGTH of every header (blanks re-recorded in the
 \* level header are not damage; bytes cut from or put in front of a header line displace the rest of the file)
-Norm(units) == [i \in DOMAIN units |-> IF units[i].k = "H" THEN [k |-> "H", idx |-> units[i].idx, nc |-> units[i].nc, sh |-> units[i].sh]
+Norm(units) == [i \in DOMAIN units |-> IF units[i].k = "H" THEN [k |-> "H", idx |-> units[i].idx, nc |-> units[i].nc, sh |-> units[i].sh, mv |-> units[i].mv]
                                                          ELSE units[i]]
 
 \* the file is exactly the FABs of the boxes that reference it, in some order, each at its recorded offset
